@@ -93,21 +93,26 @@ proof fn lemma_export_header(p: V7, b: Seq<u8>)
     lemma_v7_header_dec_fields(b, 0);
     assert(b.subrange(22, b.len() as int) =~= v7_records_enc(p.flowsets@));
 }
+proof fn lemma_rec_of_image(b: Seq<u8>, o: int, r: FlowSet)
+    requires 0 <= o, o + 52 <= b.len(), b.subrange(o, o + 52) == v7_record_enc(r),
+             r.protocol_type == proto_of(r.protocol_number),
+    ensures v7_record_dec(b, o) == r,
+{
+    let d = v7_record_dec(b, o);
+    lemma_v7_record_enc_dec(b, o);          // enc(d) == image == enc(r)
+    lemma_v7_record_dec_fields(b, o);       // d.protocol_type == proto_of(d.protocol_number)
+    lemma_rec_byte38(d);
+    lemma_rec_byte38(r);                    // protocol_number is byte 38 of the image, for both
+    lemma_v7_record_enc_inj(d, r);
+}
 proof fn lemma_export_record(s: Seq<FlowSet>, b: Seq<u8>, k: int)
     requires 0 <= k < s.len(), b.len() == 22 + 52 * s.len(), b.subrange(22, b.len() as int) == v7_records_enc(s),
              s[k].protocol_type == proto_of(s[k].protocol_number),
     ensures v7_record_dec(b, 22 + 52 * k) == s[k],
 {
-    let o = 22 + 52 * k;
-    let d = v7_record_dec(b, o);
-    lemma_v7_record_enc_dec(b, o);
     lemma_recs_at(s, k);
-    assert(b.subrange(o, o + 52) =~= v7_records_enc(s).subrange(52 * k, 52 * k + 52));
-    assert(v7_record_enc(d) == v7_record_enc(s[k]));
-    lemma_v7_record_dec_fields(b, o);
-    lemma_rec_byte38(s[k]);
-    assert(b[o + 38] == b.subrange(o, o + 52)[38]);
-    lemma_v7_record_enc_inj(d, s[k]);
+    lemma_sub_sub2(b, 22, b.len() as int, 52 * k, 52 * k + 52);
+    lemma_rec_of_image(b, 22 + 52 * k, s[k]);
 }
 
 /// C08 (second half): parsing the re-export of a well-formed structure yields an equal structure
